@@ -33,11 +33,36 @@ def run(chk, prog, tier):
     # empty operands: every operand (not only the first) passes the leading-comma test of the operand tokenizer
     from checks import C09
     for fn, f in sorted(prog.lib_functions().items()):
-        from valib.core import walk, callee_name
-        if any(c.get("kind") == "CallExpr" and callee_name(c) == fn for c in walk(prog.body(f))) and \
-                any(c.get("kind") == "CallExpr" and callee_name(c) == "strtok_r" for c in walk(prog.body(f))):
+        from valib.core import walk, callee_name, call_args, strip
+        def _comma_scan(c):
+            if c.get("kind") != "CallExpr" or callee_name(c) != "strtok_r":
+                return False
+            d = strip(call_args(c)[1], casts=True)
+            return d.get("kind") == "StringLiteral" and "," in d.get("value", "")
+        if any(_comma_scan(c) for c in walk(prog.body(f))):
             holds, why = C09._premise_holds(prog, fn, "all_opd")
             chk.require(holds, "EMPTY", "EMPTY/%s" % fn, loc_str_(f), "the recursive operand tokenizer rejects an empty operand (leading comma) at every recursion level", why)
+    # LOOKUP: the table lookups compare whole strings (a length-limited comparison accepts every prefix of an entry)
+    from valib.core import walk as _walk, callee_name as _cn, loc_str as _ls, expr_str as _es
+    TABLES = ("INSTR_TABLE", "OPD_FORMAT_TABLE", "REG_TABLE")
+    nlook = 0
+    for fn, f in sorted(prog.lib_functions().items()):
+        txt_tables = [m for m in _walk(prog.body(f)) if m.get("kind") == "DeclRefExpr" and (m.get("referencedDecl") or {}).get("name") in TABLES]
+        if not txt_tables:
+            continue
+        for c in _walk(prog.body(f)):
+            if c.get("kind") == "CallExpr" and _cn(c) in ("strcmp", "strcasecmp", "strncmp", "strncasecmp", "memcmp"):
+                if not any(m.get("kind") == "DeclRefExpr" and (m.get("referencedDecl") or {}).get("name") in TABLES for m in _walk(c)):
+                    continue
+                nlook += 1
+                chk.require(_cn(c) in ("strcmp", "strcasecmp"), "LOOKUP", "LOOKUP/%s/%s" % (fn, _cn(c)), _ls(c),
+                            "%s compares a whole table string with the whole token" % fn, "%s: a length-limited comparison matches prefixes" % _es(c)[:70])
+    chk.floor("string comparisons against the tables", nlook, 3)
+    # line structure: a terminator ends the line, so an invalid line behind it is still seen (and rejected)
+    from valib import pipeline as PL
+    from valib import scan as SC
+    roles = PL.Roles(prog)
+    SC.noswallow_rule(chk, prog, roles)
     chk.explanation = ("Decides: every row accepts only operand-kind tuples the ISA defines for that form (rows x kind strings, "
                        "against the x86 reference), the kind-string -> format map, the scale set. Known findings: the \"\"/\"i\" "
                        "format conflation (per row). NOT decided: which concrete strings reach which check.")
